@@ -430,7 +430,7 @@ class C11(tk.TableProp):
             elif e["t"] in ("get", "sub"):
                 t.append(f"{e['t']}:{'ok' if e['out'] == 'ok' else 'err'}")
             elif e["t"] == "create":
-                t.append(f"create:{where if where != 'step' else 'birth'}:k{e['k']}")
+                t.append(f"create:{'initial' if e.get('before') is None else 'birth'}:k{min(e['k'], 4)}")
         for o in obs.get("other_seeds", []):
             t.append("seed-compared")
         t += ["model-err:" + k for k in obs.get("model_errs", [])]
